@@ -92,6 +92,20 @@ def build_cli(ctx):
     return exe
 
 
+def build_gtld_updater(ctx):
+    """zlint-gtld-update built from /repo's working tree with one extra file overlaid (harness/gtldinject/inject.go.txt): its HTTP
+    transport serves the registry documents from files.  Nothing is written to /repo."""
+    os.makedirs(os.path.join(OUT, 'bin'), exist_ok=True)
+    suffix = hashlib.md5(REPO.encode()).hexdigest()[:6] if REPO != '/repo' else ''
+    exe = os.path.join(OUT, 'bin', 'gtldupd' + suffix)
+    ov = ctx.path('overlay.json')
+    json.dump({'Replace': {os.path.join(REPO, 'v3', 'cmd', 'zlint-gtld-update', 'verif_inject.go'): os.path.join(VERIF, 'harness', 'gtldinject', 'inject.go.txt')}}, open(ov, 'w'))
+    rc, out = sh(['go', 'build', '-overlay', ov, '-o', exe, './cmd/zlint-gtld-update'], cwd=os.path.join(REPO, 'v3'), timeout=1200)
+    if rc != 0:
+        raise Inconclusive('gtld updater build failed:\n' + out[-3000:])
+    return exe
+
+
 def extract(ctx):
     """Static facts about /repo's working tree (go/packages + SSA); cached per check run."""
     exe = os.path.join(OUT, 'bin', 'extract')
